@@ -1,0 +1,11 @@
+// SPDX-FileCopyrightText: 2026 The Pion community <https://pion.ly>
+// SPDX-License-Identifier: MIT
+
+//go:build verif
+
+package oggreader
+
+// VerifFields exposes the unexported fields of a parsed page header.
+func (p *OggPageHeader) VerifFields() (sig [4]byte, version, headerType uint8, index uint32, segmentsCount uint8) {
+	return p.sig, p.version, p.headerType, p.index, p.segmentsCount
+}
